@@ -131,7 +131,7 @@ func init() {
 	roots := []string{"(*buffer).get", "(*bits).UnmarshalBinary", "(*Ident).UnmarshalBinary", "(*wbool).UnmarshalBinary", "(*wuint16).UnmarshalBinary", "(*wuint32).UnmarshalBinary",
 		"(*vbint).UnmarshalBinary", "(*bindata).UnmarshalBinary", "(*rawdata).UnmarshalBinary", "(*UserProp).UnmarshalBinary"}
 	roots = append(roots, methodsOf(packetTypes, "UnmarshalBinary")...)
-	propSpecs["C03"] = &PropSpec{ID: "C03", Roots: roots,
+	propSpecs["C03"] = &PropSpec{ID: "C03", Roots: roots, ThoroughRoots: []string{"decConnect"}, ForceInline: []string{"(*Connect).UnmarshalBinary"},
 		Note: "PARTIAL - the decoder against a specification-level reader R, one step at a time, for all byte sequences: (1) R's primitive read: buffer.get is proved, for each of the nine wire types, to accept exactly when the value fits at the cursor (and a boolean byte is 0/1, a variable byte integer is complete), to deliver the specification value (big endian integers, string/binary contents byte for byte, specVbValue) and to advance the cursor by its width; the wire-type decoders carry byte-level contracts; (2) property sections: for every identifier MQTT v5.0 allows in the packet (table typed from the specification in gen_c03.py), one iteration of the property loop that starts at that identifier is proved to leave the specified value in the accessor the API names for it, to advance the cursor by 1 + width, to accept it (fixed-width types; for strings: table membership + (1)), and the identifier read is the byte at the cursor; user properties and subscription identifiers advance the cursor by their encoded size; (3) fixed-position fields and legal short forms: packet identifier / reason code / flags at their offsets, PUBACK-family frames of remaining length 2 and 3 and DISCONNECT/AUTH of length 1 are accepted, the property section starts where the specification says ($pstart), PUBLISH payload = rest of the frame after the properties; (4) lists, one step each: SUBACK/UNSUBACK reason codes (length and contents), one topic filter with its options byte per iteration of the SUBSCRIBE/UNSUBSCRIBE payload loops, one user property (key and value contents) appended per user-property entry, the subscription identifier of SUBSCRIBE; (5) the will message of a decoded CONNECT takes QoS and retain from the connect flags. NOT proved: the induction over the iterations (that each loop as a whole is R's fold), CONNECT's fixed fields, will properties and payload strings, PUBLISH topic name and packet identifier after the loop, the values of PUBLISH subscription identifiers, and the acceptance of whole frames end to end. Known finding D8: DISCONNECT refuses the three properties the specification allows"}
 }
 
